@@ -535,6 +535,7 @@ func gen(c *ex.Ctx) {
 	fmt.Fprintf(&sb, "/-- Receivers of `.Next()` / `.Finish()` inside the input goroutine (a field of `vx` is re-read on every iteration). -/\ndef inputLoopParserRefs : List String := [%s]\n\n", strings.Join(recvExprs, ", "))
 	inventory(c, &sb)
 	shapes(c, &sb)
+	protect(c, &sb)
 	// lock events that went into lockSites, per file (cross-check of the inventory)
 	sb.WriteString(lockSitesCountDef)
 	sb.WriteString("end VaxisModel.Gen.Conc\n")
